@@ -173,10 +173,6 @@ pub fn run(spec: &RunSpec, ty: &dyn TyObj, want_log: bool) -> RunResult {
             OpKind::FillVsElem { len, stream } => {
                 // R6 on two copies of one byte stream obeying the splitting law
                 calls_total += 1;
-                let need = len * width;
-                if stream.len() < need {
-                    panic!("harness: FillVsElem stream too short");
-                }
                 let mut a = SimRng::with_stream(stream.clone());
                 let mut b = SimRng::with_stream(stream.clone());
                 let ra = guarded(|| ty.fill(*len, 0, crate::types::FillVia::TryFillSlice, &mut a, op.dynamic));
@@ -353,6 +349,36 @@ pub fn run(spec: &RunSpec, ty: &dyn TyObj, want_log: bool) -> RunResult {
                                 bump(&mut counters, "probe_stall_recovered");
                             }
                         }
+                        // R3b: the value must be a function of the accepted word alone. Serve the accepted
+                        // (last) word of a call that went through rejections as the only word of a fresh call
+                        // on a scratch RNG: it must be accepted at once and give the same value.
+                        if oks.len() >= 2 && oks.len() == evs.len() && evs.iter().all(|e| e.req == evs[0].req) {
+                            if let Resp::Ok(w) = &evs[evs.len() - 1].resp {
+                                let mut probe = SimRng::new(0x0BAD_5EED, false);
+                                probe.begin_call(&[Plan::Fixed(w.clone())]);
+                                let r2 = match &op.kind {
+                                    OpKind::GenRange { .. } => guarded(|| ty.gen_range(low, high, *inclusive, &mut probe, op.dynamic)),
+                                    OpKind::Single { by_ref, .. } => guarded(|| ty.sample_single(low, high, *inclusive, *by_ref, &mut probe, op.dynamic)),
+                                    _ => {
+                                        let s = sampler.as_ref().unwrap();
+                                        guarded(|| s.sample(&mut probe, op.dynamic))
+                                    }
+                                };
+                                match r2 {
+                                    Ok(v2) if probe.events.len() == 1 => {
+                                        if v2 != *v {
+                                            viol.push(Violation { class: "accepted_word_value", op: oi, call: ci, detail: format!("{} on [{}, {}]: after {} rejected word(s) the accepted word {} produced {}, but the same word served as the first word produces {} — the result is not a function of the accepted word, so accepted words do not map onto the range with equal preimages", op.kind_name(), hex(low), hex(&high_incl), evs.len() - 1, hex(w), hex(v), hex(&v2)) });
+                                        } else {
+                                            bump(&mut counters, "probe_accepted_word_is_function");
+                                        }
+                                    }
+                                    Ok(_) => {
+                                        viol.push(Violation { class: "accepted_word_value", op: oi, call: ci, detail: format!("{} on [{}, {}]: word {} was accepted as draw {} of a call but is rejected when served as the first word — acceptance depends on the history, not on the word", op.kind_name(), hex(low), hex(&high_incl), hex(w), evs.len()) });
+                                    }
+                                    Err(_) => {}
+                                }
+                            }
+                        }
                         // R3 bookkeeping: a call that made exactly one request, answered Ok: that word alone
                         // determined the value
                         if evs.len() == 1 {
@@ -488,6 +514,9 @@ fn check_panic<T>(r: &Result<T, PanicClass>, evs: &[Event], oi: usize, ci: usize
                 let fresh = evs.iter().filter(|e| e.src == Src::Fresh).count();
                 viol.push(Violation { class: "no_return", op: oi, call: ci, detail: format!("call did not return after {} draw requests ({} of them fresh uniform words)", evs.len(), fresh) });
             }
+            // a panic in a call during which the RNG reported failure is the error surfacing (whatever the
+            // message); nothing more is asserted about such a call
+            PanicClass::Other(_) if had_err => bump(counters, "probe_err_surfaced_as_other_panic"),
             PanicClass::Other(m) => viol.push(Violation { class: "panic", op: oi, call: ci, detail: format!("panicked: {}", m) }),
         }
     }
@@ -548,11 +577,6 @@ pub fn valid(spec: &RunSpec, ty: &dyn TyObj) -> bool {
                 }
                 let c = refint::cmp(ty.signed(), low, high);
                 if c == Greater || (c == Equal && !*inclusive) {
-                    return false;
-                }
-            }
-            OpKind::FillVsElem { len, stream } => {
-                if stream.len() < len * w {
                     return false;
                 }
             }
